@@ -30,6 +30,12 @@ Take(e, r) ==
 (* handed over; complete the pending call only if sequence number AND frame ID are that      *)
 (* call's own.                                                                               *)
 IsPrefix2(a, b) == Len(a) <= Len(b) /\ SubSeq(b, 1, Len(a)) = a
+(* named deviation of the code (EmberKeyStruct.deserialize): a 24-byte key structure sent by faulty firmware is *)
+(* accepted as if 12 zero bytes stood after its 7th byte - the re-encoding is the payload with 12 zeros inserted *)
+Zeros12 == <<0, 0, 0, 0, 0, 0, 0, 0, 0, 0, 0, 0>>
+DecodesAs(reenc, pay) ==
+    \/ IsPrefix2(reenc, pay)
+    \/ \E k \in 0 .. Len(pay) : IsPrefix2(reenc, SubSeq(pay, 1, k) \o Zeros12 \o SubSeq(pay, k + 1, Len(pay))) /\ Len(reenc) >= k + 12
 MalAlts(e) ==
     LET lay  == Layout(e.ver)
         hl   == IF lay = "legacy3" THEN 3 ELSE 5
@@ -41,7 +47,7 @@ MalAlts(e) ==
         p1   == IF sq \in DOMAIN p.aw THEN [p EXCEPT !.aw = AwDel(p.aw, sq)] ELSE p
         cbs  == SelectSeq(e.out, LAMBDA o : o.o = "cb")
         dns  == SelectSeq(e.out, LAMBDA o : o.o = "done")
-        cbOk == ok /\ Len(cbs) = 1 /\ fid \in ToSet(e.ids) /\ e.cbid = fid /\ IsPrefix2(e.reenc, pay)
+        cbOk == ok /\ Len(cbs) = 1 /\ fid \in ToSet(e.ids) /\ e.cbid = fid /\ DecodesAs(e.reenc, pay)
                    /\ e.nvals = e.nfields          \* one value per declared field of that frame
         own  == ok /\ sq \in DOMAIN p.aw /\ p.aw[sq].live /\ p.hold.c = p.aw[sq].c /\ p.hold.ph = "waiting"
     IN  {PR(p, <<>>), PR(p1, <<>>)}
